@@ -189,7 +189,8 @@ def run_shards(module, n, extra_env=None, args=None, timeout=3600):
                 env_i["PYTHONOPTIMIZE"] = "1"  # `assert` statements vanish
             if i % 4 == 2:
                 cwd_i = d  # another current directory
-                env_i["PYTHONHASHSEED"] = str(1000 + i)
+                if not env.get("VERIF_FIXED_HASHSEED"):
+                    env_i["PYTHONHASHSEED"] = str(1000 + i)
             if i % 4 == 1:
                 env_i["PYTHONUTF8"] = "0"
                 env_i["LC_ALL"] = "C"
